@@ -199,7 +199,12 @@ impl DBM {
             }
         }
 
-        match tx.commit() {
+        #[cfg(feature = "verif-hooks")]
+        teos_common::verif::crash_point("txn-users:pre-commit");
+        let res = tx.commit();
+        #[cfg(feature = "verif-hooks")]
+        teos_common::verif::crash_point("txn-users:post-commit");
+        match res {
             Ok(_) => log::debug!("Users successfully deleted"),
             Err(e) => log::error!("Couldn't delete users. Error: {e:?}"),
         }
@@ -445,7 +450,12 @@ impl DBM {
             };
         }
 
-        match tx.commit() {
+        #[cfg(feature = "verif-hooks")]
+        teos_common::verif::crash_point("txn-appointments:pre-commit");
+        let res = tx.commit();
+        #[cfg(feature = "verif-hooks")]
+        teos_common::verif::crash_point("txn-appointments:post-commit");
+        match res {
             Ok(_) => log::debug!("Appointments successfully deleted"),
             Err(e) => log::error!("Couldn't delete appointments. Error: {e:?}"),
         }
